@@ -222,11 +222,14 @@ func (n *node[K, V]) collect(t *Trie[K, V], prefix K) (Queuer[K], error) {
 		return t.q, ErrorNotFound
 	}
 
+	// K(n.c) would UTF-8 encode the byte as a rune and alter bytes >= 0x80.
+	c := K([]byte{n.c})
+
 	n.left.collect(t, prefix)
 	if n.isValid {
-		t.q.Enqueue(prefix + K(n.c))
+		t.q.Enqueue(prefix + c)
 	}
-	n.mid.collect(t, prefix+K(n.c))
+	n.mid.collect(t, prefix+c)
 
 	return n.right.collect(t, prefix)
 }
